@@ -167,9 +167,62 @@ def build_view(inp):
   return v
 
 
+def request_flag(inp):
+  """the documented flag of a request: some OPTIMISED metric column carries a threshold (plain loop)"""
+  for col in inp["opt"]:
+    if inp["thr"][col] is not None:
+      return True
+  return False
+
+
+def build_request_view(inp):
+  """A real View for a request whose metrics sit in any column order: `opt` / `con` list the columns of the optimised and the
+  constraint metrics, the other columns are stored metrics; `thr` has one entry per column (None or a number)."""
+  from libsigopt.aux.adapter_info_containers import DomainInfo, MetricsInfo, PointsContainer
+  from libsigopt.views.view import View
+  n, nf, no, nm = inp["c"], inp["f"], inp["o"], len(inp["thr"])
+  rng = _pyrandom.Random(inp.get("data_seed", 0))
+  pts = numpy.array([[rng.random()] for _ in range(n)]).reshape(n, 1)
+  vals = numpy.array([[rng.randint(-20, 20) + 0.5 * j for j in range(nm)] for _ in range(n)], dtype=float).reshape(n, nm)
+  fails = numpy.array([i < nf for i in range(n)], dtype=bool)
+  rng.shuffle(fails)
+  mi = MetricsInfo(requires_pareto_frontier_optimization=bool(inp["rp"]), observation_budget=inp["b"], user_specified_thresholds=list(inp["thr"]),
+                   objectives=[rng.choice(["minimize", "maximize"]) for _ in range(nm)], optimized_metrics_index=list(inp["opt"]),
+                   constraint_metrics_index=list(inp["con"]))
+  params = dict(
+    domain_info=DomainInfo(constraint_list=[], domain_components=[dict(var_type="double", elements=[0.0, 1.0])]),
+    num_to_sample=1, tag={}, metrics_info=mi, task_options=[],
+    points_sampled=PointsContainer(points=pts, values=vals, value_vars=numpy.zeros_like(vals), failures=fails),
+  )
+  if no is not None:   # a request without the key counts zero open suggestions
+    params["points_being_sampled"] = PointsContainer(points=numpy.array([[rng.random()] for _ in range(no)]).reshape(no, 1))
+  before = copy.deepcopy(params)
+  v = View(params)
+  ps0, ps1 = before["points_sampled"], params["points_sampled"]
+  if not _same(_snapshot([ps0.points, ps0.values, ps0.value_vars, ps0.failures]), [ps1.points, ps1.values, ps1.value_vars, ps1.failures]):
+    raise InputModified("View constructor modified the request's points_sampled")
+  m0, m1 = before["metrics_info"], params["metrics_info"]
+  if (m0.user_specified_thresholds, m0.optimized_metrics_index, m0.constraint_metrics_index) != (
+      m1.user_specified_thresholds, m1.optimized_metrics_index, m1.constraint_metrics_index):
+    raise InputModified("View constructor modified the request's metrics_info")
+  return v, [bool(x) for x in fails]
+
+
 def run_impl(kind, inp):
   """Run the implementation on one input; returns the observable output (plain python data)."""
   mm = _mm()
+  if kind == "flag":
+    from libsigopt.aux.adapter_info_containers import MetricsInfo
+    mi = MetricsInfo(requires_pareto_frontier_optimization=len(inp["opt"]) == 2, observation_budget=10, user_specified_thresholds=list(inp["thr"]),
+                     objectives=["maximize"] * len(inp["thr"]), optimized_metrics_index=list(inp["opt"]), constraint_metrics_index=list(inp["con"]))
+    out = mi.has_optimized_metric_thresholds
+    if not isinstance(out, bool):
+      raise AssertionError(f"has_optimized_metric_thresholds returned {out!r}")
+    return dict(flag=out)
+  if kind == "request":
+    with scripted(us=inp["us"], pick=inp["pick"]) as log:
+      v, fails = build_request_view(inp)
+    return dict(info=info_to_py(v.multimetric_info), halton=log["halton"], fails=fails)
   if kind == "mm":
     lbl, kw = mm.identify_multimetric_phase(inp["thr"], inp["b"], inp["c"], inp["f"], inp["o"])
     assert set(kw) <= {"fraction_of_phase_completed"}
@@ -282,6 +335,8 @@ def _near(x, ts, zero_ok=True):
 
 
 def margin_discard(kind, inp):
+  if kind == "request":
+    return margin_discard("view", dict(b=inp["b"], c=inp["c"], f=inp["f"], o=inp["o"] or 0, thr=request_flag(inp)))
   if kind in ("mm", "search", "view"):
     adj = adjusted(inp["b"], inp["f"], inp["o"])
     fs, fc = Fr(inp["c"] + inp["o"], adj), Fr(inp["c"], adj)
@@ -410,9 +465,58 @@ def gen_thresholds(rng, m, hi):
   return [None if rng.random() < 0.4 else float(rng.randint(-1, hi + 1)) + rng.choice([0.0, 0.5]) for _ in range(m)]
 
 
+def gen_layout(rng, n_opt):
+  """metric columns in any order: `n_opt` optimised, 0..2 constraint, 0..2 stored metrics, interleaved; thresholds on any subset
+  (constraint metrics practically always carry one; stored metrics may)."""
+  n_con, n_sto = rng.choice([0, 1, 1, 2]), rng.choice([0, 0, 1, 2])
+  roles = ["o"] * n_opt + ["c"] * n_con + ["s"] * n_sto
+  style = rng.choice(["shuffled", "shuffled", "optimised_last", "optimised_first"])
+  if style == "shuffled":
+    rng.shuffle(roles)
+  elif style == "optimised_last":
+    roles = ["c"] * n_con + ["s"] * n_sto + ["o"] * n_opt
+  opt = [i for i, r in enumerate(roles) if r == "o"]
+  con = [i for i, r in enumerate(roles) if r == "c"]
+  if rng.random() < 0.3:
+    rng.shuffle(opt)
+  number = lambda: float(rng.randint(-8, 8)) / 4
+  thr = []
+  for r in roles:
+    p = dict(o=0.35, c=0.9, s=0.4)[r]
+    thr.append(number() if rng.random() < p else None)
+  return opt, con, thr
+
+
+def gen_request(rng):
+  """a request for a real View: counts on both sides of every documented boundary (the 0.55 / 0.65 pair depends on the flag), metrics in
+  any column order, thresholds on any subset of the columns, open suggestions present, zero or absent from the request"""
+  rp = rng.random() < 0.9
+  opt, con, thr = gen_layout(rng, 2 if rp else 1)
+  o = rng.choice([0, 0, 1, 2, 3, None])
+  oo = o or 0
+  style = rng.choice(["boundary", "boundary", "boundary", "window", "window", "spread"])
+  b = rng.choice([20, 40, 100, rng.randint(10, 120)])
+  f = rng.choice([0, 0, 1, b // 10])
+  adj = adjusted(b, f, oo)
+  if style == "boundary":
+    k = rng.choice([10, 15, 30, 45, 55, 55, 65, 65, 95, 100])
+    c = adj * k // 100 - oo + rng.choice([-1, 0, 0, 1])
+  elif style == "window":        # strictly inside (0.55, 0.65]: polish one metric xor epsilon constraint, by the flag alone
+    c = int(adj * rng.uniform(0.56, 0.65)) - oo
+  else:
+    c = int(adj * rng.uniform(0.0, 1.1)) - oo
+  c = max(c, f + 1, 2)
+  return dict(rp=rp, b=b, c=c, f=f, o=o, opt=opt, con=con, thr=thr, pick=rng.random() < 0.5, us=gen_draws(rng), data_seed=rng.randint(0, 10**6))
+
+
 def gen_case(rng):
-  kind = rng.choice(["mm"] * 5 + ["search"] * 2 + ["spe"] * 2 + ["solver", "weights", "weights", "epsilon", "info", "info", "infoerr",
+  kind = rng.choice(["mm"] * 5 + ["flag", "request", "request", "request"] + ["search"] * 2 + ["spe"] * 2 + ["solver", "weights", "weights", "epsilon", "info", "info", "infoerr",
                      "view", "view", "filter_gp", "filter_gp", "filter_gp", "filter_spe", "filter_spe", "filter_spe", "exceeds", "augment", "augment"])
+  if kind == "flag":
+    opt, con, thr = gen_layout(rng, rng.choice([0, 1, 2, 2, 3]))
+    return kind, dict(opt=opt, con=con, thr=thr)
+  if kind == "request":
+    return kind, gen_request(rng)
   if kind in ("mm", "search"):
     b, c, f, o = gen_counts(rng)
     inp = dict(b=b, c=c, f=f, o=o)
@@ -517,6 +621,11 @@ def coq_case(kind, inp, out):
   if kind == "view":
     return (f"CView {C.blit(inp['rp'])} {C.blit(inp['thr'])} {z(inp['b'])} {z(inp['c'])} {z(inp['f'])} {z(inp['o'])} {C.blit(inp['pick'])} "
             f"{ql(inp['us'])} {ql(out['halton'] or [])} {info_lit(out['info'])}")
+  if kind == "flag":
+    return f"CFlag {C.listlit(inp['thr'], oq)} {C.listlit(inp['opt'], C.nlit)} {C.blit(out['flag'])}"
+  if kind == "request":
+    return (f"CRequest {C.blit(inp['rp'])} {z(inp['b'])} {C.listlit(inp['thr'], oq)} {C.listlit(inp['opt'], C.nlit)} {bl(out['fails'])} "
+            f"{C.optlit(inp['o'], C.nlit)} {C.blit(inp['pick'])} {ql(inp['us'])} {ql(out['halton'] or [])} {info_lit(out['info'])}")
   if kind == "filter_gp":
     o = f"{{| o_pts := {rows(out['pts'])}; o_vals := {arr_lit(out['vals'])}; o_vars := {arr_lit(out['vars'])}; o_lie := {arr_lit(out['lie'])} |}}"
     return f"CFilterGP {info_lit(inp['info'])} {rows(inp['pts'])} {rows(inp['vals'])} {rows(inp['vars'])} {bl(inp['fails'])} {ql(inp['lie'])} {o} {C.blit(_ties(inp))}"
@@ -543,6 +652,15 @@ def branch_of(kind, inp, out):
     return f"{kind}:{'random' if inp.get('rs') else 'grid'}:{'in' if 0 <= f <= 1 else 'fallback-draw'}"
   if kind in ("info", "view"):
     return f"{kind}:{inp.get('label', '')}:{out['info']['method']}"
+  if kind == "flag":
+    first = sorted(inp["opt"]) == list(range(len(inp["opt"])))
+    return f"flag:{'optimised-columns-first' if first else 'optimised-columns-elsewhere'}:{out['flag']}"
+  if kind == "request":
+    first = sorted(inp["opt"]) == list(range(len(inp["opt"])))
+    pos = [inp["thr"][i] is not None for i in range(len(inp["opt"]))]          # what a positional reading would see
+    differs = any(pos) != request_flag(inp)
+    return (f"request:{out['info']['method']}:{'optimised-columns-first' if first else 'optimised-columns-elsewhere'}"
+            f"{':positions-differ-from-columns' if differs else ''}")
   if kind == "infoerr":
     return "info:KeyError"
   if kind in ("filter_gp", "filter_spe"):
@@ -612,7 +730,10 @@ def correspondence(ctx):
   return dict(evaluations=len(cases), distinct_nontrivial=nontriv,
               rule="integer budgets/counts of six styles (small, exact documented boundaries +-1, mid, tiny budget, failures above the budget, "
                    "up to 3e12), both threshold flags; fractions dyadic k/1024, mid-cell decimals, end points, out of range (fallback draw); "
-                   "real View objects for the wiring; filters on n<=10 rows of small integers with forced ties, dyadic weights/epsilon, every mode "
+                   "real View objects for the wiring, incl. requests whose optimised / constraint / stored metrics sit in any column order with thresholds "
+                   "(None or a number) on any subset of the columns, counts one observation either side of every documented boundary and "
+                   "inside (0.55, 0.65], open suggestions present / zero / absent; the real MetricsInfo flag for 0..3 optimised columns; "
+                   "filters on n<=10 rows of small integers with forced ties, dyadic weights/epsilon, every mode "
                    "on both paths; thresholds inside/outside the data for the SPE augmentation. Cases closer than 1e-9 (rational margin) to a "
                    "phase or table boundary are discarded and counted. non-trivial = past initialisation (selectors), mixed failure mask (filters), "
                    "mask changed (augmentation); distinct by hash of the canonical input",
@@ -829,6 +950,29 @@ def oracle(kind, inp):
     return None
   if kind == "infoerr":
     return None
+  if kind == "flag":
+    want = request_flag(inp)
+    return None if out["flag"] == want else _fail(kind, "threshold flag is not 'some optimised metric column carries a threshold'", inp, out, want,
+                                                  "loop over the optimised columns")
+  if kind == "request":
+    # the documented wiring: the schedule is driven by the thresholds of the OPTIMISED metrics only, wherever their columns are
+    doc = dict(rp=inp["rp"], thr=request_flag(inp), b=inp["b"], c=inp["c"], f=inp["f"], o=inp["o"] or 0, pick=inp["pick"])
+    info = out["info"]
+    r = check_info(kind, inp, info)
+    if r:
+      return r
+    if not doc["rp"]:
+      want, om = "none", None
+    elif margin_discard("mm", doc):
+      return None
+    else:
+      st, _ = doc_stage(doc["thr"], doc["b"], doc["c"], doc["f"], doc["o"])
+      want = dict(I="one", O="one", P="one", R="convex", S="convex", E="eps", C="eps")[st]
+      om = int(doc["pick"]) if st in "IC" else (doc["c"] % 2 if st in "OPE" else None)
+    if info["method"] != want or (om is not None and info.get("om") != om):
+      return _fail(kind, "multimetric_info of the request does not match the documented phase (flag = some optimised metric column has a threshold)",
+                   inp, out, dict(method=want, om=om, flag=doc["thr"]), "phase table")
+    return None
   if kind in ("info", "view"):
     info = out["info"]
     r = check_info(kind, inp, info)
@@ -966,7 +1110,8 @@ def replay(ctx, payload):
 
 
 LEVEL_TEXT = ("Coq theorems on an executable model of the three phase selectors, the weight/epsilon tables, "
-              "form_multimetric_info_from_phase, View.form_multimetric_info, the six filter functions, both dispatchers and the SPE failure "
+              "form_multimetric_info_from_phase, MetricsInfo.has_optimized_metric_thresholds and View.form_multimetric_info (request level: "
+              "which threshold entries are consulted), the six filter functions, both dispatchers and the SPE failure "
               "augmentation: totality (divisor >= 1), the phase table, monotonicity of the stage in the observation count for all integers, "
               "fraction in (0,1], weights/epsilon in [0.1,0.9] summing to 1 for every fraction, draw and Halton table meeting its contract, "
               "aligned output lengths and the right metric columns per mode; the model is tied to the code by exact differential runs "
